@@ -27,16 +27,18 @@ def shard(kind, n_cases, n_jobs, timeout=900, **params):
 EDGE_CONFIGS = {
     # (L / mol: the coarsest documented storage units - what a mass request was rounded on; L / umol: unequal prefixes with
     # litres, where a stored digit of the volume is 4e-7 of a 250 uL stock; zero-volume solids and enzymes)
-    'coarse_storage': ({'volume_storage_unit': 'L', 'moles_storage_unit': 'mol'}, [26, 10, 19]),
-    'L_umol': ({'volume_storage_unit': 'L', 'moles_storage_unit': 'umol'}, [19, 8, 26, 21]),
+    'coarse_storage': ({'volume_storage_unit': 'L', 'moles_storage_unit': 'mol'}, [26, 10, 19, 28, 29]),
+    'L_umol': ({'volume_storage_unit': 'L', 'moles_storage_unit': 'umol'}, [19, 8, 26, 21, 29]),
     'zero_volume': ({'default_solid_density': 'inf', 'default_enzyme_density': 'inf'}, [27, 22, 24]),
+    # (other display units: what the observers answer in by default)
+    'display_units': ({'volume_display_unit': 'mL', 'moles_display_unit': 'mmol', 'concentration_display_unit': 'mM'}, [31, 15, 22]),
 }
 
 
 def edges_jobs(tier):
-    """The directed edge families of pv/edges.py: 28 families x 3 (quick) or x 40 (thorough) cases, and the families that
+    """The directed edge families of pv/edges.py: 32 families x 3 (quick) or x 40 (thorough) cases, and the families that
     are about a configuration under that configuration."""
-    jobs = shard('edges', 84, 3) if tier == 'quick' else shard('edges', 1120, 8)
+    jobs = shard('edges', 96, 4) if tier == 'quick' else shard('edges', 1280, 8)
     for k, (tag, (cfg, only)) in enumerate(EDGE_CONFIGS.items()):
         n = len(only) * (2 if tier == 'quick' else 30)
         for j in shard('edges', n, 1 if tier == 'quick' else 2):
